@@ -143,11 +143,17 @@ def r12_2(ctx):
             # first-level steps must end at ref_end or at the midpoint of [curr_t, ref_end]
             ends = [tb for ta, tb, y, e, n in p.steps]
             full = [tb for ta, tb, y, e, n in p.steps if nf.equal(tb, ref_end)]
+            if not full:
+                # the clip spelled with a branch (`if next_t > ts[-1]: next_t = ts[-1]`): on each arm min(.,.) is the
+                # operand the arm's own comparison selects
+                arm = ik.min_on_path(ik.H("curr_t") + ik.H("step_size"), t_end, getattr(p, "facts", []))
+                if arm is not None:
+                    full = [tb for ta, tb, y, e, n in p.steps if nf.equal(tb, arm) and nf.equal(ta, ik.H("curr_t"))]
             # the end of the horizon itself is the other admissible step end (a remainder of rounding-error size merged
             # into the last step); *when* the code may choose it is pinned down by the exact-arithmetic models of
             # R12.7 / R15.3, and R12.1 keeps the output times out of the decision
             snapped = [tb for ta, tb, y, e, n in p.steps if nf.equal(tb, t_end) and nf.equal(ta, ik.H("curr_t"))]
-            trial_end = ref_end if full else (t_end if snapped else None)
+            trial_end = (full[0] if full else (t_end if snapped else None))
             rep.check(trial_end is not None, "R12.2", astq.loc(fi, p.steps[0][4]), f"{base}::step-end",
                       f"no step of the iteration ends at min(curr_t + step_size, ts[-1]) = `{ref_end}` (or at ts[-1] "
                       f"itself); step ends are {[str(x) for x in ends]}: the grid is not ts[0] + k dt clipped to ts[-1]",
